@@ -1029,6 +1029,140 @@ fn concurrent_owner_phase<T: W>(win: &mut Win, threads: usize, nops: usize, seed
     }
 }
 
+
+/// Observer phase: one writer keeps a few neighbouring fields *odd* at all times using the atomic
+/// accessors only (every operation maps an odd value to an odd value), while observer threads
+/// read the very same fields with `load_atomic` and value-preserving read-modify-writes
+/// (`fetch_or 0`, `fetch_and all-ones`, a rejecting `fetch_update`, a failing compare-exchange).
+/// An atomic accessor that goes through an intermediate value (clear-then-set, two-step updates)
+/// lets an observer see an even value that was never the field's value.
+fn concurrent_observer_phase<T: W>(win: &mut Win, observers: usize, nops: usize, seed: u64, rep: &mut Report) {
+    use std::sync::atomic::{AtomicBool, AtomicU64};
+    let spec = win.spec;
+    let mask = win.mask();
+    let (bits, region, n, f0) = (win.bits, win.region, win.n, win.f0);
+    const NF: usize = 8;
+    let first = n / 2 - NF / 2;
+    // start odd
+    for i in first..first + NF {
+        let v = win.get(i) | 1;
+        spec.store_atomic::<T>(addr(f0 + (i << region)), T::from64(v), Ordering::SeqCst);
+        win.put(i, v);
+    }
+    let stop = AtomicBool::new(false);
+    let reads = AtomicU64::new(0);
+    let distinct = std::sync::Mutex::new(std::collections::HashSet::<u64>::new());
+    let bad: std::sync::Mutex<Vec<(String, String)>> = std::sync::Mutex::new(vec![]);
+    let (stop_r, reads_r, distinct_r, bad_r) = (&stop, &reads, &distinct, &bad);
+    let finals: Vec<u64> = std::thread::scope(|s| {
+        for o in 0..observers {
+            s.spawn(move || {
+                let mut rng = Rng::new(mix(seed, 100 + o as u64));
+                let mut seen = std::collections::HashSet::new();
+                let mut cnt = 0u64;
+                while !stop_r.load(Ordering::Relaxed) {
+                    let i = first + rng.usize_below(NF);
+                    let a = addr(f0 + (i << region));
+                    let how = rng.usize_below(5);
+                    let v = match how {
+                        0 | 1 => spec.load_atomic::<T>(a, Ordering::SeqCst).to64(),
+                        2 => spec.fetch_or_atomic::<T>(a, T::from64(0), Ordering::SeqCst).to64(),
+                        3 => spec.fetch_and_atomic::<T>(a, T::from64(mask), Ordering::SeqCst).to64(),
+                        _ => match spec.fetch_update_atomic::<T, _>(a, Ordering::SeqCst, Ordering::SeqCst, |_x: T| None) {
+                            Ok(v) => v.to64(),
+                            Err(v) => v.to64(),
+                        },
+                    };
+                    cnt += 1;
+                    if seen.len() < 64 {
+                        seen.insert(v);
+                    }
+                    if v & 1 == 0 || v & !mask != 0 {
+                        let mut b = bad_r.lock().unwrap();
+                        if b.len() < 6 {
+                            b.push((
+                                format!("concurrent:observer-saw-a-value-the-field-never-held:bits={}:region={}", bits, region),
+                                format!("observer {} read {:#x} from field {} (data_addr={:#x}, bit-in-byte {}) with {}; the only writer keeps the field odd with atomic accessors (store_atomic, compare_exchange, fetch_update, fetch_or, fetch_and with odd operands, fetch_add/sub of even values)",
+                                    o, v, i, a.as_usize(), (i * (1usize << bits)) % 8, ["load_atomic", "load_atomic", "fetch_or(0)", "fetch_and(all-ones)", "fetch_update(|_| None)"][how]),
+                            ));
+                        }
+                    }
+                }
+                reads_r.fetch_add(cnt, Ordering::Relaxed);
+                distinct_r.lock().unwrap().extend(seen);
+            });
+        }
+        let w = s.spawn(move || {
+            let mut rng = Rng::new(mix(seed, 7));
+            let mut model: Vec<u64> = (first..first + NF).map(|i| spec.load_atomic::<T>(addr(f0 + (i << region)), Ordering::SeqCst).to64()).collect();
+            for _ in 0..nops {
+                let k = rng.usize_below(NF);
+                let a = addr(f0 + ((first + k) << region));
+                let cur = model[k];
+                let odd = (rng.next() & mask) | 1;
+                let even = rng.next() & mask & !1;
+                let newv = match rng.usize_below(7) {
+                    0 | 1 => {
+                        spec.store_atomic::<T>(a, T::from64(odd), Ordering::SeqCst);
+                        odd
+                    }
+                    2 => match spec.compare_exchange_atomic::<T>(a, T::from64(cur), T::from64(odd), Ordering::SeqCst, Ordering::SeqCst) {
+                        Ok(_) => odd,
+                        Err(_) => cur,
+                    },
+                    3 => {
+                        let _ = spec.fetch_update_atomic::<T, _>(a, Ordering::SeqCst, Ordering::SeqCst, |_x: T| Some(T::from64(odd)));
+                        odd
+                    }
+                    4 => {
+                        spec.fetch_or_atomic::<T>(a, T::from64(odd), Ordering::SeqCst);
+                        cur | odd
+                    }
+                    5 => {
+                        spec.fetch_and_atomic::<T>(a, T::from64(odd), Ordering::SeqCst);
+                        cur & odd
+                    }
+                    _ => {
+                        if rng.chance(1, 2) {
+                            spec.fetch_add_atomic::<T>(a, T::from64(even), Ordering::SeqCst);
+                            cur.wrapping_add(even) & mask
+                        } else {
+                            spec.fetch_sub_atomic::<T>(a, T::from64(even), Ordering::SeqCst);
+                            cur.wrapping_sub(even) & mask
+                        }
+                    }
+                };
+                model[k] = newv;
+            }
+            stop_r.store(true, Ordering::SeqCst);
+            model
+        });
+        let m = w.join();
+        stop_r.store(true, Ordering::SeqCst);
+        m.expect("observer phase writer panicked")
+    });
+    for (k, v) in finals.iter().enumerate() {
+        win.put(first + k, *v);
+    }
+    for (sg, d) in bad.into_inner().unwrap() {
+        rep.violation(sg, d);
+    }
+    let r = reads.load(Ordering::Relaxed);
+    rep.evaluations += r + nops as u64;
+    rep.count("observer_reads", r);
+    rep.count("observer_writer_ops", nops as u64);
+    rep.count("observer_distinct_values_seen", distinct.into_inner().unwrap().len() as u64);
+    rep.key(mix(0x0B5E, mix(bits as u64, observers as u64)));
+    if win.mem() != &win.img[..] {
+        rep.violation(
+            format!("concurrent:observer-phase:final-window-differs:bits={}:region={}", bits, region),
+            "after the observer phase the raw window differs from the writer's model (observers only use value-preserving operations)".to_string(),
+        );
+        let m: Vec<u8> = win.mem().to_vec();
+        win.img.copy_from_slice(&m);
+    }
+}
+
 fn concurrent_subtest(args: &Args, rng: &mut Rng, rep: &mut Report, slot: &mut usize) {
     let nops = args.usize_or("conc-ops", if args.thorough() { 2_000_000 } else { 150_000 });
     for bits in 0..=6usize {
@@ -1048,6 +1182,20 @@ fn concurrent_subtest(args: &Args, rng: &mut Rng, rep: &mut Report, slot: &mut u
                 }));
                 if r.is_err() {
                     rep.violation(format!("concurrent:panic:bits={}:region={}", bits, region), "a thread of the concurrent phase panicked inside a side-metadata accessor".to_string());
+                    let m: Vec<u8> = win.mem().to_vec();
+                    win.img.copy_from_slice(&m);
+                }
+            }
+            for &observers in &[1usize, 3] {
+                let seed = rng.next();
+                let r = catch_unwind(AssertUnwindSafe(|| match bits {
+                    0..=3 => concurrent_observer_phase::<u8>(&mut win, observers, nops, seed, rep),
+                    4 => concurrent_observer_phase::<u16>(&mut win, observers, nops, seed, rep),
+                    5 => concurrent_observer_phase::<u32>(&mut win, observers, nops, seed, rep),
+                    _ => concurrent_observer_phase::<u64>(&mut win, observers, nops, seed, rep),
+                }));
+                if r.is_err() {
+                    rep.violation(format!("concurrent:observer-panic:bits={}:region={}", bits, region), "a thread of the observer phase panicked inside a side-metadata accessor".to_string());
                     let m: Vec<u8> = win.mem().to_vec();
                     win.img.copy_from_slice(&m);
                 }
